@@ -44,6 +44,14 @@ SPECS = {
         assumptions=["the recorded storage convention F3a is recognised by running S with that convention (Model/Sld.v ss_split)"],
         explanation="clauses loaded as text and asserted, observed through clause/2, retract/1 and calls, on the implementation, M and S",
     ),
+    "C13": dict(
+        level="proof", props_deps=["Proofs/Cancel.v", "Proofs/Trampoline.v"], model_deps=ENGINE_MODEL_DEPS, trusted=ENGINE_TRUSTED + [
+            "a harness-side context.Context whose Done channel is closed from the n-th poll on makes the cancellation instant deterministic"],
+        assumptions=["wall-clock latency (bound 250 ms) is measured on the implementation, not proved",
+                     "the cost of a single thunk is bounded by the size of the terms it is handed (cyclic terms excluded)"],
+        search=False,
+        explanation="looping programs x cancellation instants: the implementation and M are compared poll for poll (answers delivered before the instant, ending); the property (context error returned, bounded further polls, bounded wall time, interpreter usable afterwards) is evaluated on every run",
+    ),
     "C11": dict(
         level="proof", props_deps=["Proofs/Groups.v"], model_deps=ENGINE_MODEL_DEPS, trusted=ENGINE_TRUSTED,
         assumptions=["setof/3 results whose order hinges on the order of distinct unbound variables are not generated",
